@@ -478,6 +478,49 @@ func (g *gen) generate(thorough bool) {
 				d.Set(jnum(pr[1]), "crypto", "kdfparams", "p")
 				g.addBoth("scrypt-rp", "r="+pr[0]+" p="+pr[1], d, pw)
 			}
+			// the allocation cap of scrypt.Key (make([]uint32, 32*N*r) panics beyond 2^48 bytes): documents just
+			// beyond it fail fast and are run (the runner refuses everything else above the cost cap, in particular
+			// the documents AT the cap, N*r = 2^41, on which the runtime would try to map 256 TiB); the MAC is stale
+			// (it cannot be computed), the panic precedes the MAC test. Around them: documents beyond the cap that
+			// are rejected before the KDF call (dklen, r = 0, N not a power of two, N over the library limit), the
+			// lenient spellings (duplicate n: last wins), and a PBKDF2 file carrying such n / r (ignored).
+			for _, pr := range [][3]string{{"4398046511104", "1", "1"}, {"2199023255552", "2", "1"}, {"1099511627776", "3", "1"}, {"17179869184", "129", "1"},
+				{"1125899906842624", "1", "1"}, {"36028797018963968", "1", "1"}, {"4398046511104", "1", "2"}, {"1073741824", "4096", "1"},
+				{"2199023255552", "1", "1"} /* AT the cap: must be skipped */, {"1099511627776", "2", "1"} /* AT the cap */, {"4398046511104", "0", "1"},
+				{"4398046511105", "1", "1"}, {"72057594037927936", "1", "1"}, {"4398046511104", "1", "0"}} {
+				d := d0.Clone()
+				d.Set(jnum(pr[0]), "crypto", "kdfparams", "n")
+				d.Set(jnum(pr[1]), "crypto", "kdfparams", "r")
+				d.Set(jnum(pr[2]), "crypto", "kdfparams", "p")
+				name := "n=" + pr[0] + " r=" + pr[1] + " p=" + pr[2]
+				g.add("scrypt-alloc-cap", name, d.Bytes(), pw)
+				if pr[0] == "4398046511104" && pr[1] == "1" && pr[2] == "1" {
+					for _, dk := range []string{"31", "33", "-1"} {
+						d2 := d.Clone()
+						d2.Set(jnum(dk), "crypto", "kdfparams", "dklen")
+						g.add("scrypt-alloc-cap", name+" dklen="+dk, d2.Bytes(), pw)
+					}
+					d3 := d.Clone()
+					d3.Set(jstr("00"), "crypto", "cipherparams", "iv")
+					g.add("scrypt-alloc-cap", name+" iv=1 byte", d3.Bytes(), pw)
+					d4 := d.Clone()
+					d4.Set(jnum("4"), "version")
+					g.add("scrypt-alloc-cap", name+" version=4", d4.Bytes(), pw)
+					d5 := d.Clone()
+					d5.Set(jstr("pbkdf2"), "crypto", "kdf")
+					g.add("scrypt-alloc-cap", name+" kdf=pbkdf2", d5.Bytes(), pw)
+					// duplicate n inside kdfparams: the last one counts
+					raw := string(d0.Bytes())
+					if i := strings.Index(raw, `"n":`); i >= 0 {
+						j := i + 4
+						for j < len(raw) && (raw[j] == ' ' || raw[j] >= '0' && raw[j] <= '9') {
+							j++
+						}
+						g.add("scrypt-alloc-cap", "duplicate n: small then beyond", []byte(raw[:j]+`,"N":4398046511104`+raw[j:]), pw)
+						g.add("scrypt-alloc-cap", "duplicate n: beyond then small", []byte(raw[:i]+`"n":4398046511104,`+raw[i:]), pw)
+					}
+				}
+			}
 			// N x r interplay (N > maxInt/128/r)
 			for _, pr := range [][2]string{{"2", "1"}, {"4096", "8"}, {"1024", "64"}, {"36028797018963968", "2"}, {"36028797018963968", "3"}, {"18014398509481984", "4"}, {"18014398509481984", "5"}} {
 				d := d0.Clone()
